@@ -11,6 +11,7 @@ import KinModel.Lemmas.C13Media
 import KinModel.Gen.BodyDecoders
 import KinModel.Gen.BodyEncoders
 import KinModel.Lemmas.C13Flow
+import KinModel.C13Iter
 namespace KinModel.C13
 open Stream
 
@@ -96,6 +97,26 @@ theorem second_validation_coherent (c : Cfg) (outcome : Bytes → BodyOutcome) (
     (h : Coherent r data) :
     Coherent (validateStream c outcome r).1 (expectedAfter c outcome r data) :=
   ⟨(validateStream_coherent c outcome r data h).1, (validateStream_coherent c outcome r data h).2.1⟩
+
+/-- **A second validation leaves the stream exactly as the first one left it** — Body, GetBody, ContentLength —
+whatever the verdicts (security failing or not, body rejected or not, re-encoding possible or not), provided the value
+layer does not turn the rewritten body into yet other bytes (Part 2: it does not, outside `BranchShift`).  Full
+strength on the stream side. -/
+theorem stream_second_validation_changes_nothing (c : Cfg) (outcome : Bytes → BodyOutcome) (r : Req) (data : Bytes)
+    (h : Coherent r data) (H : ∀ nd nd', outcome data = .rewrite nd → outcome nd = .rewrite nd' → nd' = nd) :
+    (validateStream c outcome (validateStream c outcome r).1).1 = (validateStream c outcome r).1 :=
+  validateStream_idem c outcome r data h H
+
+/-- **n validations = 1 validation (stream).**  However often the request is validated again, the stream stays as
+the first validation left it, and every validation returns the first one's verdict. -/
+theorem stream_n_validations (c : Cfg) (outcome : Bytes → BodyOutcome) (r : Req) (data : Bytes)
+    (h : Coherent r data) (H : ∀ nd, outcome data = .rewrite nd → nd ≠ [] ∧ outcome nd = .accept) (n : Nat) :
+    iterN (fun x => (validateStream c outcome x).1) (n + 1) r = (validateStream c outcome r).1 ∧
+    (validateStream c outcome (iterN (fun x => (validateStream c outcome x).1) (n + 1) r)).2 = (validateStream c outcome r).2 := by
+  have hid : (validateStream c outcome (validateStream c outcome r).1).1 = (validateStream c outcome r).1 :=
+    validateStream_idem c outcome r data h (fun nd nd' h1 h2 => by rw [(H nd h1).2] at h2; cases h2)
+  have e := iterN_of_idem (fun x => (validateStream c outcome x).1) r hid n
+  exact ⟨e, by rw [e]; exact validateStream_idem_verdict c outcome r data h H⟩
 
 /-- A request without a body is not given one by the security phase. -/
 theorem sec_no_body_untouched (f : Bool) (r : Req) (qs : List (List Scheme)) (h : r.body = none) :
@@ -235,6 +256,23 @@ theorem defaults_idempotent_partial (c : Ctx) (s : S) (hw : wf s = true) (v v' :
 theorem defaulted_request_validates_partial (c : Ctx) (s : S) (hw : wf s = true) (v v' : J)
     (hx : BranchShift c s v = false) (h : visit c s v = some v') : accepts c s v' = true := by
   simp [accepts, defaults_idempotent_partial c s hw v v' hx h]
+
+/-- **n validations = 1 validation (body value).**  Outside `BranchShift` — in particular for every composition-free
+schema — every further validation accepts the forwarded value and forwards it unchanged. -/
+theorem body_n_validations_partial (c : Ctx) (s : S) (hw : wf s = true) (v v' : J)
+    (hx : BranchShift c s v = false) (h : visit c s v = some v') : ∀ n, visitN c s (n + 1) v = some v' := by
+  have hfix : visit c s v' = some v' := defaults_idempotent_partial c s hw v v' hx h
+  have hn : ∀ n, visitN c s n v' = some v' := by
+    intro n
+    induction n with
+    | zero => rfl
+    | succ k ih => simp only [visitN, hfix, Option.bind_some, ih]
+  intro n
+  simp only [visitN, h, Option.bind_some, hn n]
+
+theorem body_n_validations_noComb (c : Ctx) (s : S) (hc : hasComb s = false) (hw : wf s = true) (v v' : J)
+    (h : visit c s v = some v') : ∀ n, visitN c s (n + 1) v = some v' :=
+  body_n_validations_partial c s hw v v' (by simp [BranchShift, hc]) h
 
 /-- finding #37, first half: `anyOf [A: {required [z], x default 1}, B: {z default 2}]` forwards `{}` as `{z:2}` and
     that, validated again, as `{z:2, x:1}` -/
@@ -507,6 +545,22 @@ theorem params_second_validation_partial (skip multi : Bool) : ∀ (ps : List Pa
     generalize (paramsPhase skip multi ps (paramStep skip p st).1).1 = stf at *
     rw [paramsPhase_cons]
     simp only [t1, t2, Bool.not_true, Bool.false_and, Bool.false_eq_true, ↓reduceIte, ih, Bool.and_self]
+
+/-- **n validations = 1 validation (parameters).**  For parameters with pairwise distinct (location, name), after an
+accepted validation no further validation writes anything — whatever the later verdicts.  Full strength. -/
+theorem params_n_validations (skip multi : Bool) (ps : List Param) (st : Store)
+    (hk : keysDistinct ps = true) (hok : (paramsPhase skip multi ps st).2 = true) (n : Nat) :
+    iterN (fun x => (paramsPhase skip multi ps x).1) (n + 1) st = (paramsPhase skip multi ps st).1 :=
+  iterN_of_idem (fun x => (paramsPhase skip multi ps x).1) st (params_idempotent skip multi ps st hk hok) n
+
+/-- … and outside `DefaultReadsAsEmpty` every further validation accepts. -/
+theorem params_n_validations_accept_partial (skip multi : Bool) (ps : List Param) (st : Store)
+    (hk : keysDistinct ps = true) (hr : ∀ p ∈ ps, DefaultReadsAsEmpty skip p st = false)
+    (hok : (paramsPhase skip multi ps st).2 = true) (n : Nat) :
+    paramsPhase skip multi ps (iterN (fun x => (paramsPhase skip multi ps x).1) (n + 1) st) =
+      ((paramsPhase skip multi ps st).1, true) := by
+  rw [params_n_validations skip multi ps st hk hok n]
+  exact params_second_validation_partial skip multi ps st hk hr hok
 
 /-- **All parameters: forwarded request = spec (partial).**  The parameters of an accepted request are exactly the
 spec's — every absent parameter with a default carries it, nothing else changed — provided no parameter is in the
@@ -933,6 +987,44 @@ theorem rewrite_is_encoded_visit (c : Ctx) (declared : List (String × Option S)
                   exact ⟨key, s, v, v', rfl, hs, rfl, hv, rfl, hcond.1, henc⟩
                 · cases h
               · cases h
+
+/-- **The rewritten body is accepted as it is by the next validation** (no further rewrite): outside `BranchShift`,
+given that decoding what the encoder wrote gives the value back (trusted: encoding/json). -/
+theorem rewritten_body_is_accepted (c : Ctx) (declared : List (String × Option S)) (hw : declaredWf declared = true)
+    (header : String) (cd : Codec) (data nd : Stream.Bytes)
+    (h : bodyOutcome c declared header cd data = .rewrite nd)
+    (hrt : ∀ v, decoded header cd (cd.enc v) = some v)
+    (hx : ∀ key s v, contentGet (declared.map (·.1)) header = some key → schemaOf key declared = some (some s) →
+      decoded header cd data = some v → BranchShift c s v = false) :
+    bodyOutcome c declared header cd nd = .accept := by
+  obtain ⟨key, s, v, v', hg, hs, hd, hv, rfl, _, _⟩ := rewrite_is_encoded_visit c declared header cd data nd h
+  have hfix : visit c s v' = some v' :=
+    defaults_idempotent_partial c s (schemaOf_wf key declared s hw hs) v v' (hx key s v hg hs hd) hv
+  rw [bodyOutcome_eq]
+  have hne : declared.isEmpty = false := by
+    cases declared with
+    | nil => simp [schemaOf] at hs
+    | cons _ _ => rfl
+  simp only [hne, Bool.false_eq_true, ↓reduceIte, hg, hs, hrt v', hfix, finish, J.beq_refl, Bool.not_true, Bool.and_false]
+
+/-- **n validations = 1 validation (whole body path).**  Stream and value layer together: outside `BranchShift`,
+however often the request is validated again — any security outcome, any Content-Type, any declared content — Body,
+GetBody and ContentLength stay as the first validation left them, and every validation returns the first verdict. -/
+theorem body_path_n_validations (cfg : Stream.Cfg) (c : Ctx) (declared : List (String × Option S))
+    (hw : declaredWf declared = true) (header : String) (cd : Codec) (r : Stream.Req) (data : Stream.Bytes)
+    (h : Stream.Coherent r data)
+    (hrt : ∀ v, decoded header cd (cd.enc v) = some v) (hne : ∀ v, cd.enc v ≠ [])
+    (hx : ∀ key s v, contentGet (declared.map (·.1)) header = some key → schemaOf key declared = some (some s) →
+      decoded header cd data = some v → BranchShift c s v = false) (n : Nat) :
+    iterN (fun x => (Stream.validateStream cfg (bodyOutcome c declared header cd) x).1) (n + 1) r =
+      (Stream.validateStream cfg (bodyOutcome c declared header cd) r).1 ∧
+    (Stream.validateStream cfg (bodyOutcome c declared header cd)
+      (iterN (fun x => (Stream.validateStream cfg (bodyOutcome c declared header cd) x).1) (n + 1) r)).2 =
+      (Stream.validateStream cfg (bodyOutcome c declared header cd) r).2 := by
+  apply stream_n_validations cfg _ r data h
+  intro nd hnd
+  obtain ⟨_, _, _, v', _, _, _, _, e, _, _⟩ := rewrite_is_encoded_visit c declared header cd data nd hnd
+  exact ⟨by rw [e]; exact hne v', rewritten_body_is_accepted c declared hw header cd data nd hnd hrt hx⟩
 
 /-- The rewrite fails exactly in the class `NoBodyEncoder`. -/
 theorem rewriteFails_iff_noBodyEncoder (c : Ctx) (declared : List (String × Option S)) (header : String) (cd : Codec)
